@@ -1046,7 +1046,29 @@ pub fn check_case(cx: &mut Ctx, case: &Case, mut rep: Option<&mut Report>) -> Ve
             }
             FileSpec::Scr(_) => None,
         };
-        if let Some(d) = described {
+        if let Some(mut d) = described {
+            // devices a file says nothing about (no AY / KEYB / AMXM chunk) stay the receiver's; where the file does
+            // speak, the load phase above has just found the machine to be as the spec says: the built twin gets the
+            // devices the loaded machine was observed with, so that code which reads their ports runs alike
+            if let (Some(sel), Some(regs)) = (got.get("aysel"), got.get("ayregs")) {
+                if let Ok(sel) = u8::from_str_radix(sel, 16) {
+                    let r = unhex(regs);
+                    if r.len() == 16 {
+                        let mut a16 = [0u8; 16];
+                        a16.copy_from_slice(&r);
+                        let enabled = d.ay.as_ref().or(case.recv.ay.as_ref()).map_or(false, |a| a.enabled);
+                        d.ay = Some(AyState { sel, regs: a16, enabled, played: false });
+                    }
+                }
+            }
+            if let Some(m) = got.get("mouse") {
+                d.mouse = m == "1";
+            }
+            match got.get("kemp").map(|s| s.as_str()) {
+                Some("1") => d.kemp = true,
+                Some("0") => d.kemp = false,
+                _ => d.kemp = case.recv.kemp,
+            }
             let mut a = build(&case.recv);
             let ok = match &case.file {
                 FileSpec::Szx(_) => load_szx(&mut a, &bytes),
